@@ -28,4 +28,11 @@ def shape(shape, mask, model=None, obligation=None, **_):
     if P.fp_isd(ISD.from_model(doc, prev[-1]), True) != cur:
       return True, (f"shape {shape} with {({k: str(x) for k, x in vals.items()})}: snapshot at t={t} differs from the one at the significant "
                     f"time {prev[-1]}; significant times {[str(o) for o in offs]}")
-  return False, f"no change between significant times {[str(o) for o in offs]} at the probed instants"
+  seq = list(ISD.generate_isd_sequence(doc))
+  if [t for t, _ in seq] != offs:
+    return True, f"generate_isd_sequence yields the times {[str(t) for t, _ in seq]}, the significant times are {[str(o) for o in offs]}"
+  for t, isd in seq:
+    if P.fp_isd(isd, True) != P.fp_isd(ISD.from_model(doc, t), True):
+      return True, (f"shape {shape} with {({k: str(x) for k, x in vals.items()})}: the entry of generate_isd_sequence at t={t} differs from "
+                    f"ISD.from_model(doc, {t}); significant times {[str(o) for o in offs]}")
+  return False, f"no change between significant times {[str(o) for o in offs]} at the probed instants; every sequence entry equals the snapshot at its time"
